@@ -103,11 +103,22 @@ func main() {
 	case "C15":
 		res.Rule = "end causes {graceful close, FIN, RST, server-side context cancel} x handler reaction time {0, 15 ms} with five handlers in progress (unary, 300 kB response, stream, notification, reverse-calling), plus the reader-hand-off schedule; every captured context must be cancelled and no goroutine labelled for the dead connection may remain; distinct = (cause, reaction, gate)"
 		err = cancel.ConnectionEnd(d, res, *seed, thorough)
+		if err == nil {
+			// reverse-client callers observe the end of their connection: many concurrent reverse calls, some still
+			// queued for the main loop when it exits
+			err = c16.CallsGone(res, *seed+5, "rst", 90000)
+		}
+		if err == nil {
+			err = c16.CallsGone(res, *seed+6, "close", 91000)
+		}
 	case "C07":
 		res.Rule = "rounds of 1..4 concurrent subscriptions with lengths {0,1,31,32,33,257,1000}, fast/slow consumers, every third round one consumer that does not read (from the start or after 5 values) while the others and 20 unary calls must complete, seed-driven delays at every hook; per subscription the hook trace is replayed through the model and compared with what the consumer received; wire order checked on proxy frames; distinct = round; every round non-trivial"
 		err = stream.RunHealthy(d, res, *seed, thorough)
 		if err == nil {
 			err = stream.RichElements(res, *seed, n(300, 3000))
+		}
+		if err == nil {
+			err = stream.Independence(res, *seed)
 		}
 	case "C08":
 		res.Rule = "termination causes {handler close, context cancel, connection loss (fin/rst/blackhole; armed on the channel-id response at 5 byte positions, or cut later), client close, cancel racing loss, loss then close, handler close racing cancel} x instants {at start, after the first value, mid-stream, with values buffered behind a stalled consumer} x {reconnecting, no-reconnect} x 1..3 subscriptions; per subscription the hook trace is replayed through the model; every channel must close; distinct = (cause, instant, reconnect, fault, k, n); every case non-trivial"
@@ -168,6 +179,12 @@ func main() {
 		}
 		if err == nil {
 			err = corr.OneShotNotifyOnce(res, *seed)
+		}
+		if err == nil {
+			err = corr.CtxCancelPending(res, *seed)
+		}
+		if err == nil {
+			err = c01.RunConcurrent(res, *seed, thorough) // at-most-once per call also means: each execution with its own call's arguments
 		}
 	case "C18":
 		res.Rule = "a mixed workload (queued, written and awaiting calls, a 400 kB response being read, a stream, a connection loss with calls in the reconnect window and after) with the closer fired at sampled occurrences (first, last, random) of each of 25 yield-point sites (hook gates), plus the sweep-versus-executor schedule with the closer as observer and closers of one-shot clients; distinct = (site, occurrence)"
